@@ -42,6 +42,11 @@ type world struct {
 	otherCA  *x509.Certificate
 	stranger *x509.Certificate // never presented: "matches nothing", well-formed
 	states   []*state
+	// nBase: states[:nBase] are the connection states of the property's
+	// quantifier; states[nBase:] the "unrelated CA appended" / "PKIX verified by
+	// the client" variants (exhaustive in groups A, B; in a part of the batches
+	// of group C).
+	nBase int
 }
 
 // state is one TLS connection state handed to verifyDANE.
@@ -55,6 +60,17 @@ type state struct {
 	// chainsTo[i] caches: the leaf validly chains (crypto/x509, name, time) to
 	// chain[i] used as the only trust anchor. 0 unknown, 1 yes, 2 no.
 	chainsTo []int8
+	// verified is what crypto/tls puts into ConnectionState.VerifiedChains when
+	// the CLIENT's own PKIX verification of the presented chain succeeded (the
+	// client trusts the hierarchy's real root): the result of a real x509
+	// verification, never hand-made. nil: the client does not trust the chain
+	// (maddy then reconnects with InsecureSkipVerify) - crypto/tls leaves the
+	// field empty. The statement does not mention the client's PKIX verdict, so
+	// the reference ignores it.
+	verified [][]*x509.Certificate
+	// appended: a CA certificate that has nothing to do with the server
+	// certificate is part of the presented chain.
+	appended bool
 }
 
 func buildWorld() *world {
@@ -85,6 +101,54 @@ func buildWorld() *world {
 	add("caleaf+int+root", "ca-leaf", true, caLeaf.Cert, inter.Cert, root.Cert)
 	add("selfsigned", "self-signed", true, self.Cert)
 	add("selfsigned-ca", "self-signed-ca", true, selfCA.Cert)
+
+	// Presented chains with an UNRELATED CA certificate appended or inserted
+	// (a server may send any certificates it likes; a TLSA "2 x y" record for
+	// such a CA must not authenticate a leaf that does not chain to it), for
+	// leaves issued by the intermediate, directly by the root (rootleaf), and
+	// for leaves that are not valid for the MX.
+	rootLeaf := root.Leaf(certs.LeafOpts{DNSNames: []string{mxName}})
+	first := len(w.states)
+	w.nBase = first
+	add("leaf+unrelatedCA", "ok", true, leaf.Cert, other.Cert)
+	add("leaf+unrelatedCA+int", "ok", true, leaf.Cert, other.Cert, inter.Cert)
+	add("rootleaf", "ok", true, rootLeaf.Cert)
+	add("rootleaf+unrelatedCA", "ok", true, rootLeaf.Cert, other.Cert)
+	add("expired+int+unrelatedCA", "expired", true, expired.Cert, inter.Cert, other.Cert)
+	add("wrongname+unrelatedCA", "wrong-name", true, wrong.Cert, other.Cert)
+	for _, st := range w.states[first:] {
+		st.appended = st.name != "rootleaf"
+	}
+	for _, st := range w.states {
+		if st.name == "leaf+int+unrelatedCA" {
+			st.appended = true
+		}
+	}
+
+	// The same presented chains as seen by a client whose own PKIX verification
+	// SUCCEEDED (it trusts the hierarchy's root; first connection attempt of
+	// remote.connect): ConnectionState.VerifiedChains is populated exactly the
+	// way crypto/tls does it - Verify(Roots = client pool, Intermediates =
+	// presented[1:], DNSName = ServerName). A chain the client cannot verify
+	// gets no such variant (crypto/tls would have failed the handshake).
+	clientRoots := x509.NewCertPool()
+	clientRoots.AddCert(root.Cert)
+	for _, st := range append([]*state(nil), w.states...) {
+		if !st.hs {
+			continue
+		}
+		opts := x509.VerifyOptions{DNSName: mxName, Roots: clientRoots, Intermediates: x509.NewCertPool(), CurrentTime: w.now}
+		for _, c := range st.chain[1:] {
+			opts.Intermediates.AddCert(c)
+		}
+		vc, err := st.chain[0].Verify(opts)
+		if err != nil || len(vc) == 0 {
+			continue
+		}
+		add(st.name+"/pkix-verified", st.leafKind+"-pkix-verified", true, st.chain...)
+		nst := w.states[len(w.states)-1]
+		nst.verified, nst.appended = vc, st.appended
+	}
 	return w
 }
 
@@ -353,6 +417,7 @@ func callReal(recs []miekgdns.TLSA, st *state) (o observed) {
 	cs := tls.ConnectionState{HandshakeComplete: st.hs, ServerName: mxName}
 	if st.hs {
 		cs.PeerCertificates = st.chain
+		cs.VerifiedChains = st.verified
 		cs.Version = tls.VersionTLS13
 	}
 	defer func() {
@@ -447,6 +512,20 @@ func (m *monitor) eval(ks []kind, st *state) {
 	if v.auth && !(o.err == nil && o.override) && o.panicked == "" {
 		m.cnt["ref_match_but_not_authenticated(not judged)"]++
 	}
+	if st.verified != nil {
+		m.cnt["direct_pkix_verified_state"]++
+	}
+	if st.appended {
+		m.cnt["direct_unrelated_ca_appended"]++
+		if refV == "refuse" && strings.Contains(cl, "ta-match-ca-chain-bad") {
+			// a usable DANE-TA record names the appended CA, the leaf does not chain to it
+			if st.verified != nil {
+				m.cnt["direct_ta_names_appended_ca_refuse/pkix-verified"]++
+			} else {
+				m.cnt["direct_ta_names_appended_ca_refuse/pkix-not-verified"]++
+			}
+		}
+	}
 	m.shapes[fmt.Sprintf("%s|%s|hs=%v|n=%d|%s", cl, st.leafKind, st.hs, len(ks), refV)] = struct{}{}
 	clause := judge(v, o, len(ks), st)
 	if clause == "" {
@@ -539,6 +618,32 @@ func selfTest(t *testing.T, w *world) {
 		"wrongname+int+root":   {false, false, false},
 		"caleaf+int+root":      {true, true, true},
 		"selfsigned-ca":        {true},
+
+		"leaf+unrelatedCA":                   {true, false},
+		"leaf+unrelatedCA+int":               {true, false, true},
+		"rootleaf":                           {true},
+		"rootleaf+unrelatedCA":               {true, false},
+		"expired+int+unrelatedCA":            {false, false, false},
+		"wrongname+unrelatedCA":              {false, false},
+		"leaf+int/pkix-verified":             {true, true},
+		"leaf+int+root/pkix-verified":        {true, true, true},
+		"leaf+int+unrelatedCA/pkix-verified": {true, true, false},
+		"leaf+unrelatedCA+int/pkix-verified": {true, false, true},
+		"rootleaf/pkix-verified":             {true},
+		"rootleaf+unrelatedCA/pkix-verified": {true, false},
+		"caleaf+int+root/pkix-verified":      {true, true, true},
+	}
+	seen := map[string]bool{}
+	for _, st := range w.states {
+		seen[st.name] = true
+		if (st.verified != nil) != strings.HasSuffix(st.name, "/pkix-verified") {
+			t.Fatalf("harness: state %s: VerifiedChains and name disagree", st.name)
+		}
+	}
+	for name := range want {
+		if !seen[name] {
+			t.Fatalf("harness: connection state %s was not generated", name)
+		}
 	}
 	for _, st := range w.states {
 		exp, ok := want[st.name]
@@ -567,6 +672,13 @@ func TestVerif(t *testing.T) {
 	w := buildWorld()
 	remote.VerifSetVerifyDANETime(w.now)
 	selfTest(t, w)
+
+	// wall-clock marks in the shard log: information for whoever tunes the tier
+	// sizes, never part of a verdict
+	t0 := time.Now()
+	mark := func(what string) {
+		fmt.Printf("c13 timing: %s done %.1fs after start\n", what, time.Since(t0).Seconds())
+	}
 
 	r.Set("record_kinds", len(allKinds))
 	r.Set("connection_states", len(w.states))
@@ -608,13 +720,16 @@ func TestVerif(t *testing.T) {
 		}
 	}
 
+	mark("groups A, B (direct, exhaustive)")
+
 	// Group E: end to end through dns.ExtResolver, the DANE policy and a real remote target.
 	e2eGroup(t, r, w)
+	mark("group E")
 
 	// Groups F, G: the same path under hostile next hops on the refusal path
 	// (QUIT/RSET/NOOP behaviour, second MX, connection reuse, second delivery)
 	// and with two- and three-record sets (e2ex_test.go).
-	e2exGroups(t, r, w)
+	e2exGroups(t, r, w, mark)
 
 	// Group C: PRNG-sampled multisets of 2-4 records, each against every state.
 	// Half of the draws are biased towards records with usable parameters so
@@ -627,6 +742,7 @@ func TestVerif(t *testing.T) {
 		}
 	}
 	nb := r.N(300, 10000)
+	nbAll := r.N(100, 2000) // batches that are also run against states[nBase:]
 	for b := 0; b < nb; b++ {
 		r.Run(groupSampled+b, fmt.Sprintf("sampled/%d", b), func(c *rep.Case) {
 			p := prng.New(r.Seed(), uint64(b), "c13")
@@ -643,7 +759,11 @@ func TestVerif(t *testing.T) {
 					}
 				}
 				sizes[n]++
-				for _, st := range w.states {
+				sts := w.states
+				if b >= nbAll {
+					sts = w.states[:w.nBase]
+				}
+				for _, st := range sts {
 					m.eval(ks, st)
 				}
 				if b == 0 && i < 3 {
@@ -661,4 +781,5 @@ func TestVerif(t *testing.T) {
 			c.Done("sampled", true)
 		})
 	}
+	mark("group C (direct, sampled)")
 }
